@@ -398,3 +398,7 @@ func VerifC07_CustomProviderReachesFixedPoint() { VerifC15_TwoRefsRestore() }
 
 // C03: the share the built-in Istio script writes equals the step's value (same obligation as C15's).
 func VerifC03_IstioStepShare() { VerifC15_IstioVirtualServiceSplit() }
+
+// C15: finalising restores every referenced resource that still exists, whichever other ref is gone (same obligation
+// as C05's).
+func VerifC15_FinaliseRestoresEveryRef() { VerifC05_CustomFinaliseRestoresEveryRef() }
